@@ -1,6 +1,52 @@
 #!/usr/bin/env python3
 """Print the seeded-change table of DESIGN.md section 11 from seeded/*/meta.json."""
 import json, glob, os, re
+# seeds the property's quick check missed when the seed first arrived, and the class of input that was added (never the
+# seeded input itself); recorded by hand from the work log
+FIRST_MISS = {
+ "C02-1": "shift counts that are 1 only after masking",
+ "C03-2": "register-field mutation; CALL/RET added to C03",
+ "C06-1": "dividend/divisor steering",
+ "C09-1": "resize in the C09 generator",
+ "C11-2": "entry points other than the code start",
+ "C12-2": "call/ret programs with RET hooks",
+ "C13-1": "break arguments at neighbour edges",
+ "C16-2": "a huge second PT_LOAD after successful ones",
+ "C18-1": "indirect-jump family",
+ "C08-4": "guest stores of every width with the bytes around the operand observed (C08 runs the instruction generator too)",
+ "C09-4": "ELF-loaded segments in the C09 generator (denied stores/fetches on every loaded segment)",
+ "C11-4": "hooks that stop the run (stopped step still executes and counts)",
+ "C05-6": "stack/call/branch classes with memory operands in C05; rip and rsp compared",
+ "C08-5": "a failing huge resize followed by accesses at the old end",
+ "C09-5": "fetch after a protection change between steps",
+ "C10-6": "init_stack_program_start in layout histories",
+ "C11-6": "limit (re)set in the middle of a run",
+ "C12-6": "hooks that try to register from inside; the same registration afterwards",
+ "C13-5": "code at address 0 / at the start of the heap search",
+ "C13-6": "first brk call with a non-zero argument",
+ "C14-5": "a read that fails on guest memory, then a good read",
+ "C17-5": "non-ASCII (UTF-8) arguments",
+ "C17-6": "a stack / an area named Stack already present",
+ "C18-6": "empty areas in the rendered state",
+ "C19-5": "the steered single-instruction stream under the crash oracle",
+ "C19-6": "unbalanced-return histories followed by a failing step",
+ "C20-5": "many pipes open at once (descriptor numbers unobserved)",
+ "C20-6": "failing hooks and varying sets of written registers in the partial-register family",
+ "C06-8": "non-writable masks R+X, none, X, W, W+X besides read-only",
+ "C02-7": "same register as both operands; register forms get 40 % of the cases",
+ "C08-7": "shrink then regrow within the old extent",
+ "C15-7": "incidental header fields varied (p_paddr, p_align, e_type, OSABI)",
+ "C13-7": "empty areas where the heap search starts",
+ "C13-8": "a failing huge brk with data in the heap, then ordinary growth",
+ "C12-7": "hooks that stop and fail at once",
+ "C12-8": "in-hook registration attempts for SYSCALL/INT/INT1/INT3, then such an instruction without handler",
+ "C16-7": "long UTF-8 symbol names around the 128/256-byte marks",
+ "C14-8": "descriptors equal to a pipe end in the low half only",
+ "C18-7": "entry points other than the code start in C18",
+ "C18-8": "JECXZ in program families",
+ "C19-7": "dividend extremes (most negative double-width value) for IDIV",
+ "C20-7": "an area named Stack already present in the partial-register family",
+}
 rows = []
 for d in sorted(glob.glob("/verif/seeded/C*")):
     m = json.load(open(d + "/meta.json"))
@@ -15,8 +61,8 @@ for d in sorted(glob.glob("/verif/seeded/C*")):
         if v.get("exit") == 1:
             kinds = sorted({(r.get("kind") or "") for r in v.get("replays", [])})
             how.append(chk + " (" + ",".join(k for k in kinds if k) + ")")
-    rows.append((name, ", ".join(m.get("files") or [])[:60], desc, conf, "; ".join(how) if how else "NOT DETECTED"))
-print("| change | files | what it does | confirmed | caught by |")
-print("|---|---|---|---|---|")
+    rows.append((name, ", ".join(m.get("files") or [])[:60], desc, conf, "; ".join(how) if how else "NOT DETECTED", "yes" if name not in FIRST_MISS else "**no** → " + FIRST_MISS[name]))
+print("| change | files | what it does | confirmed | caught by | first attempt |")
+print("|---|---|---|---|---|---|")
 for r in rows:
     print("| " + " | ".join(x.replace("|", "/") for x in r) + " |")
